@@ -12,7 +12,16 @@ Verdict(r) ==
                       <<"output-well-formed", WellFormed(post) /\ NoOverlap(Notes(post))>> >>
         bar == IF r.kind = "bar" THEN BarKeyClauses(r.kin, r.i, r.kout) ELSE <<>>
     IN IF ~r.post.readable THEN <<"raised-or-unreadable">>
-       ELSE IF ~dom THEN <<>> ELSE Fails(base \o bar)
+       ELSE IF ~dom
+            THEN (* a legal but un-normalised sequence (a pitch struck again before its release): when nothing has to be
+                    moved by octaves, every note message is shifted by exactly the interval, message by message *)
+                 (IF r.kind = "seq" /\ ~NeedsWrap(pre, r.i)
+                  THEN LET np == SelectSeq(r.pre.rel, IsNote) nq == SelectSeq(r.post.rel, IsNote) IN
+                       Fails(<< <<"every-message-shifted", /\ Len(nq) = Len(np) /\ r.flag = FALSE
+                                                           /\ \A j \in DOMAIN np : j \in DOMAIN nq =>
+                                                                  (nq[j].ty = np[j].ty /\ nq[j].ch = np[j].ch /\ nq[j].p = np[j].p + r.i)>> >>)
+                  ELSE <<>>)
+       ELSE Fails(base \o bar)
 TraceInit == TraceStart /\ src = <<>> /\ by = 0 /\ pos = 1 /\ out = <<>> /\ moved = FALSE
 TraceNext == HasLine /\ Advance /\ UNCHANGED vars /\ Emit([id |-> Line.id, fails |-> Verdict(Line)])
 =============================================================================
